@@ -54,7 +54,7 @@ def coq_strings(text):
     return out
 
 
-def diagnose(ck, sk_text, gl_text):
+def diagnose(ck, sk_text, gl_text, st_text=None):
     """the reflection lemmas failed: ask Coq for the diagnostics of the checker (names function / class::member)"""
     out = {}
     strip = lambda t: re.sub(r"(?ms)^Lemma \w+ : .*?^Proof\. vm_compute\. reflexivity\. Qed\.$", "", t)
@@ -71,6 +71,11 @@ def diagnose(ck, sk_text, gl_text):
     rc, text = ck.coq_eval(v2, name="c11_diag_globals", timeout=300)
     parts = text.split("     = ")
     out["check_globals"] = coq_strings(parts[1]) if (rc == 0 and len(parts) == 2) else ["<diagnostic evaluation failed: %s>" % re.sub(r"\s+", " ", text[-400:])]
+    if st_text is not None:
+        v3 = strip(st_text) + "\nEval vm_compute in (vcheck_program static_entry_points).\n"
+        rc, text = ck.coq_eval(v3, name="c11_diag_statics", timeout=300)
+        parts = text.split("     = ")
+        out["check_statics"] = coq_strings(parts[1]) if (rc == 0 and len(parts) == 2) else ["<diagnostic evaluation failed: %s>" % re.sub(r"\s+", " ", text[-400:])]
     return out
 
 
@@ -91,6 +96,7 @@ def stress_plan(rng, tier):
             ("runtime", sd(), 8, 2000, 0),
             ("codegen", sd(), 4, 200, 0),
             ("codegen", sd(), 8, 100, 0),
+            ("ownrt", sd(), 8, 300, 1),
         ]
     plan = [
         ("alloc", sd(), 2, 300000, 0),
@@ -106,6 +112,8 @@ def stress_plan(rng, tier):
         ("codegen", sd(), 4, 4000, 0),
         ("codegen", sd(), 8, 2000, 0),
         ("codegen", sd(), 16, 1000, 0),
+        ("ownrt", sd(), 8, 3000, 1),
+        ("ownrt", sd(), 16, 1500, 0),
     ]
     for rep in range(12):
         plan.append(("alloc", sd(), rng.choice([2, 3, 5, 8, 12, 16]), 100000, rng.choice([0, 1, 2, 4, 6, 8, 10, 16, 22])))
@@ -181,7 +189,8 @@ def run(ck):
     if sk_info["untranslated_nodes"]:
         # a defect of the checking machinery, not a verdict: the traversal skipped evaluated member accesses / calls
         raise RuntimeError("c11_skeleton.py did not translate some member accesses / calls: %s" % sk_info["untranslated_nodes"])
-    r = regen_own(ck, {"LockSkeleton.v": sk_text, "WritableGlobals.v": gl_text})
+    st_text, st_entries = S.gen_statics(vlib.REPO)
+    r = regen_own(ck, {"LockSkeleton.v": sk_text, "WritableGlobals.v": gl_text, "StaticsSkeleton.v": st_text})
     gen_dir, gen_failed, diags = None, [], {}
     if r is None:
         ck.log("translator: regenerated skeleton + globals identical to the committed snapshot (%d entry points)" % len(sk_info["entry_points"]))
@@ -189,7 +198,7 @@ def run(ck):
         gen_dir, gen_failed, log = r
         ck.log("translator: regenerated files differ from the snapshot; recompiled in %s; failed: %s" % (gen_dir, gen_failed))
         if gen_failed:
-            diags = diagnose(ck, sk_text, gl_text)
+            diags = diagnose(ck, sk_text, gl_text, st_text)
             ck.log("checker diagnostics: %s" % json.dumps(diags)[:1500])
     obl = ck.coq_properties(gen_dir=gen_dir)
     ck.log("theorems: %d, failed: %d" % (len(obl), len([o for o in obl if not o["ok"]])))
@@ -198,7 +207,7 @@ def run(ck):
     exe = ck.build_harness("c11", ["c11_harness.cpp"], variant="tsan")
     plan = stress_plan(rng, ck.tier)
     timeout = 60 if ck.tier == "quick" else 900
-    alldiag = [d for k in ("check_program", "coverage_diag", "check_globals") for d in diags.get(k, [])]
+    alldiag = [d for k in ("check_program", "coverage_diag", "check_globals", "check_statics") for d in diags.get(k, [])]
     with ThreadPoolExecutor(max_workers=4) as ex:
         results = list(ex.map(lambda c: run_one(exe, c, timeout), plan))
     lines, tsan_total, ops_total = [], 0, 0
@@ -219,7 +228,8 @@ def run(ck):
             key = "C11/tsan/%s/%s" % (rep["kind"], rep["function"])
             ck.violation(key, "ThreadSanitizer %s in %s (%s) with %d threads on one %s [%s]; asmjit frames: %s" % (
                 rep["kind"], rep["function"], rep["location"], threads,
-                {"alloc": "JitAllocator", "runtime": "JitRuntime", "codegen": "process (independent code generation)"}[mode],
+                {"alloc": "JitAllocator", "runtime": "JitRuntime", "codegen": "process (independent code generation)",
+                 "ownrt": "process (every thread its own JitRuntime: only the process-wide caches are shared)"}[mode],
                 "; ".join(alldiag[:3]) or "skeleton obligations hold", ", ".join(rep["asmjit_frames"])),
                 dict(rp, tsan_report=rep["text"], skeleton_diagnostics=diags))
         if details or any(l.startswith("MISMATCH") for l in summary):
@@ -248,11 +258,12 @@ def run(ck):
         cold["mismatches"] += len([l for l in out.splitlines() if l.startswith("MISMATCH")])
 
     # ---------------------------------------------------------------- obligations that broke without an exhibited schedule
-    for kind, thm in (("check_program", "C11_all_shared_access_locked"), ("coverage_diag", "C11_skeleton_coverage"), ("check_globals", "C11_no_shared_mutable_globals")):
+    for kind, thm in (("check_program", "C11_all_shared_access_locked"), ("coverage_diag", "C11_skeleton_coverage"), ("check_globals", "C11_no_shared_mutable_globals"),
+                      ("check_statics", "C11_statics_guarded")):
         for d in ([] if explored_bad else diags.get(kind, [])):
             key = "C11/skeleton/" + re.sub(r"\s+", "-", d)[:120]
             ck.violation(key, "%s fails on the regenerated %s: %s%s" % (
-                thm, "WritableGlobals.v" if kind == "check_globals" else "LockSkeleton.v", d,
+                thm, {"check_globals": "WritableGlobals.v", "check_statics": "StaticsSkeleton.v"}.get(kind, "LockSkeleton.v"), d,
                 "" if explored_bad else " (ThreadSanitizer exploration of %d schedules exhibited no failing schedule)" % len(plan)),
                 {"broken": thm, "diagnostic": d, "all_diagnostics": diags, "file": "coq/gen (regenerated in %s)" % gen_dir,
                  "explored": [list(c) for c in plan]}, no_input=True)
@@ -281,11 +292,14 @@ def run(ck):
          "ast_kinds_without_rule": sk_info["unknown_ast_kinds"], "untranslated_member_accesses_or_calls": sk_info["untranslated_nodes"],
          "lock_implementation": sk_info["lock_impl"],
          "access_sites": len(st), "access_sites_under_lock": locked_sites,
+         "statics_entry_points": st_entries,
          "writable_globals": [list(x) for x in gl_syms], "object_symbols_by_section": getattr(S.gen_globals, "sections", {}),
          "translator_snapshot_identical": r is None, "regenerated_files_failed": gen_failed, "checker_diagnostics": diags,
          "exploration": {"label": "EXPLORATION, not an obligation: schedules are sampled by the OS scheduler under ThreadSanitizer",
                          "stress_runs": len(plan), "stress_operations": ops_total, "tsan_reports": tsan_total,
                          "thread_counts": sorted(set(c[2] for c in plan)), "allocator_option_masks": sorted(set(c[4] for c in plan if c[0] != "codegen")),
+                         "runs": [{"mode": c[0], "seed": c[1], "threads": c[2], "ops_per_thread": c[3], "options": c[4]} for c in plan],
+                         "replay_rule": "--replay <violation.json> re-runs the recorded (mode, seed, threads, ops, options) 20 times",
                          "summaries": lines},
          "cold_start_outside_premise": dict(cold, note="threads whose first AsmJit call constructs a JitRuntime: CpuInfo::host()/VirtMem::info() initialise "
                                                         "concurrently; excluded by the premise 'once the host information has been initialised'; reports here are "
@@ -312,20 +326,29 @@ def replay(ck):
     if "mode" in r:
         exe = ck.build_harness("c11", ["c11_harness.cpp"], variant="tsan")
         cfg = (r["mode"], r["seed"], r["threads"], r["ops"], r["opt"])
-        for attempt in range(3):
-            _, rc, out, err = run_one(exe, cfg, 1500)
-            print("attempt %d: rc=%d" % (attempt, rc))
-            print(out)
+        # the same parameters (mode, seed, thread count, ops, options) are re-run 20 times: the per-thread operation streams are
+        # identical every time, the interleaving is whatever the scheduler does; a schedule-dependent failure shows up in a fraction
+        failing, shown = 0, 0
+        for attempt in range(20):
+            HUNG.discard(cfg[0])
+            _, rc, out, err = run_one(exe, cfg, 600)
             reps = tsan_reports(err)
-            print("ThreadSanitizer reports: %d" % len(reps))
-            for x in reps[:2]:
-                print(x["text"][:3000])
-            if reps or rc not in (0,):
-                break
+            bad = bool(reps) or rc not in (0,) or any(l.startswith(("MISMATCH", "DETAIL")) for l in out.splitlines())
+            failing += 1 if bad else 0
+            print("attempt %2d: rc=%d tsan_reports=%d %s" % (attempt + 1, rc, len(reps), (out.splitlines() or [""])[0][:160]))
+            if bad and shown < 2:
+                shown += 1
+                for l in out.splitlines():
+                    if l.startswith("DETAIL"):
+                        print("   ", l)
+                for x in reps[:1]:
+                    print(x["text"][:2500])
+        print("replay: %d of 20 runs with these parameters failed (threads=%d ops=%d opt=%d seed=%d)" % (failing, cfg[2], cfg[3], cfg[4], cfg[1]))
         print("note: the per-thread operation streams are reproduced exactly; the interleaving is chosen by the OS scheduler")
         return 0
     lib = ck.build_lib("plain")
     sk_text, _ = S.gen_skeleton(vlib.REPO)
     gl_text, _ = S.gen_globals(lib["lib"], vlib.REPO)
-    print(json.dumps(diagnose(ck, sk_text, gl_text), indent=1))
+    st_text, _ = S.gen_statics(vlib.REPO)
+    print(json.dumps(diagnose(ck, sk_text, gl_text, st_text), indent=1))
     return 0
